@@ -35,6 +35,19 @@ def gen(rng, tier):
     base = {"kind": rng.choice(["sync", "pool", "pool", "spy"]), "n": rng.choice([1, 2])}
     nsubs = rng.choice([1, 2, 3, 4]) if mode == "A" else rng.choice([2, 3, 4, 6])
     layers = gen_layers(rng, depth, nsubs=nsubs, faults=True, fast=True)
+    for L in layers:
+        if L["t"] == "retry" and rng.random() < 0.35:
+            # a user-written policy, possibly one that raises: "the retry policy declined" includes
+            # a policy that could not be evaluated
+            L["policy"] = {"kind": "custom", "max": rng.choice([2, 3, 4]), "on": "exc", "sleep": rng.choice([0, 0.05])}
+            k = rng.random()
+            if k < 0.3:
+                L["policy"]["raise_should"] = rng.choice([1, 2])
+            elif k < 0.6:
+                L["policy"]["raise_sleep"] = rng.choice([1, 2])
+            elif k < 0.75:
+                L["policy"]["inherit_sleep"] = True
+                L["policy"]["sleep"] = 0
     subs = {}
     for s in range(nsubs):
         nfail = rng.choice([0, 0, 1, 2])
